@@ -5,6 +5,10 @@ sys.path.insert(0, os.path.join(os.path.dirname(os.path.abspath(__file__)), 'vx'
 import registry
 
 TEXT = {
+ 'C09': ('Deductive proof (Verus) on the real try_parse_grpc_timeout (exactly the spec-conformant values - 1..8 ASCII digits and a unit - are parsed, to exactly the duration they denote; everything else is an error, never a panic or overflow), duration_to_grpc_timeout (the written value is conformant, never longer than requested, loses less than one unit), GrpcTimeout::call (deadline == the shorter of header and configured timeout, malformed header ignored) and ResponseFuture::poll (a finished call wins; timeout only when the timer fired).',
+         'Partial: timers/virtual time and the TimeoutExpired->CANCELLED mapping are outside reach. Assumed std contracts for str::parse::<u64>, split_at, integer Display.'),
+ 'C08': ('Deductive proof (Verus) on the real metadata code: into_sanitized_headers strips exactly the six reserved names and keeps every other key with its value sequence (loop invariant over the real GRPC_RESERVED_HEADERS table); Request/Response::into_http and Status::add_header emit user metadata only through it; Ascii/Binary::is_valid_key partition the keys by the -bin suffix; typed accessors (get/get_bin/remove/insert/append and their _bin variants) and Iter::next never cross the partition; Binary values are base64 on the wire and decode to the original bytes for padded and unpadded input (lemma over the b64 axioms).',
+         'Assumed: http::HeaderMap multimap contract, base64 inverse axioms, repr(transparent) casts.'),
  'C05': ('Deductive proof (Verus) on the real compression.rs: from_accept_encoding_header only returns an encoding that is enabled for sending AND offered by the request; from_encoding_header accepts exactly the enabled encodings, identity/absent means none, everything else is refused with UNIMPLEMENTED carrying grpc-accept-encoding == exactly the enabled list; compress()/decompress() call the coder named by the encoding; decode_chunk rejects flag 1 without negotiated encoding with INTERNAL.',
          'Assumed: the EnabledCompressionEncodings slot algebra is decided by Kani-complete harnesses (A-tonic-cfg-01); str split/trim as uninterpreted token list; flate2/zstd coders as uninterpreted functions with inverse axioms. Byte-string match arms are verified through rewrite R15 (first-match if-chain).'),
  'C12': ('Deductive proof (Verus) of the frame condition on the real InterceptedService::call with the real Request::{from_http,into_parts,from_parts,into_http}: on accept exactly one inner call whose uri/method/version/body are the original and whose headers are exactly the interceptor\'s metadata (no sanitising); on reject the inner service is not called and ResponseFuture::poll resolves to exactly Status::into_http (200, application/grpc, grpc-status/message/details + sanitized metadata, empty body).',
